@@ -6,6 +6,9 @@ import (
 	"os"
 	"path/filepath"
 	"strings"
+	"time"
+
+	"github.com/spali/go-rscp/rscp"
 )
 
 // replayers: recompute the implementation's answer for one recorded operation line
@@ -30,5 +33,95 @@ func runReplay(path, out string) {
 		} else {
 			fmt.Fprintln(w, "no-replayer-for-"+kind)
 		}
+	}
+}
+
+func init() {
+	msgsOf := func(fields []string) ([]rscp.Message, bool) {
+		ts := &tokStream{t: fields}
+		ms, err := parseMsgs(ts)
+		return ms, err == nil
+	}
+	replayers["val"] = func(op string) string {
+		ms, ok := msgsOf(strings.Fields(op)[1:])
+		if !ok {
+			return "bad-op"
+		}
+		defer func() { recover() }()
+		if err := rscp.VerifValidateRequests(ms); err != nil {
+			return "err " + errClass(err)
+		}
+		return "ok "
+	}
+	replayers["send"] = func(op string) string {
+		f := strings.Fields(op)
+		if len(f) < 5 {
+			return "bad-op"
+		}
+		ms, ok := msgsOf(f[4:])
+		if !ok {
+			return "bad-op"
+		}
+		var sec, ns int64
+		fmt.Sscan(f[2], &sec)
+		fmt.Sscan(f[3], &ns)
+		impl, prop := sendRun(ms, f[1] == "1", time.Unix(sec, ns).UTC())
+		return impl + "   [oracle: " + prop + "]"
+	}
+	replayers["enc"] = func(op string) string {
+		f := strings.Fields(op)
+		if len(f) < 5 {
+			return "bad-op"
+		}
+		ms, ok := msgsOf(f[4:])
+		if !ok {
+			return "bad-op"
+		}
+		var sec, ns int64
+		fmt.Sscan(f[2], &sec)
+		fmt.Sscan(f[3], &ns)
+		p := plainFrame(ms, f[1] == "1", time.Unix(sec, ns).UTC())
+		if p == nil {
+			return "err"
+		}
+		return "ok " + hexOf(p)
+	}
+	replayers["tag"] = func(op string) string {
+		var n uint32
+		fmt.Sscan(strings.Fields(op)[1], &n)
+		return tagLine(rscp.Tag(n))
+	}
+	replayers["dt"] = func(op string) string {
+		var n int
+		fmt.Sscan(strings.Fields(op)[1], &n)
+		return dtLine(rscp.DataType(n))
+	}
+	replayers["render"] = func(op string) string {
+		ms, ok := msgsOf(strings.Fields(op)[1:])
+		if !ok {
+			return "bad-op"
+		}
+		return renderRun(ms)
+	}
+	replayers["jout"] = func(op string) string {
+		f := strings.Fields(op)
+		ms, ok := msgsOf(f[2:])
+		if !ok {
+			return "bad-op"
+		}
+		loop, err := startE3Loop()
+		if err != nil {
+			return "no-e3dc-binary"
+		}
+		defer loop.close()
+		got := loop.ask("out " + f[1] + " " + hexOf(plainFrame(ms, false, time.Unix(1, 0).UTC())))
+		if strings.HasPrefix(got, "ok ") {
+			txt, _ := unhex(got[3:])
+			if toks, ok := joTokens(txt); ok {
+				return "ok " + toks + "   [text: " + trunc(string(txt), 200) + "]"
+			}
+			return "invalid-json " + trunc(string(txt), 200)
+		}
+		return got
 	}
 }
